@@ -599,9 +599,9 @@ def decide(root, prop, tier, seed, scratch, t0, ev_path):
         failed_fns = {}
         for f in ur["failures"]:
             failed_fns.setdefault(f["fn"], []).append(f)
-        contracts = {gen.short_id(c.path): c for c in unit_contracts(root, ur["unit"])}
+        contracts = {gen.short_id(c.path) + (("__" + c.opts["variant"]) if c.opts.get("variant") else ""): c for c in unit_contracts(root, ur["unit"])}
         for fi in ur["fns"]:
-            sid = gen.short_id(fi["path"])
+            sid = gen.short_id(fi["path"]) + (("__" + fi["variant"]) if fi.get("variant") else "")
             c = contracts.get(sid)
             if c is None or (prop not in fi["props"] and not dev):
                 continue
